@@ -25,12 +25,18 @@ Fixpoint keys_nonneg (v : value) : bool :=
   | VSet _ | VFrozen _ => true
   end.
 
+(* [addA]: also treat added iterable items as located entries (used for the
+   positional mode, where an added and a removed item never share a path) *)
+Section WithAdd.
+Variable addA : bool.
+
 Definition loc (e : entry) : path := npath (ep1 e).
 (* Some true: located on the t1 side and verified (or possibly turned into a
    value change); Some false: a set whose items change *)
 Definition cls (e : entry) : option bool :=
   match ekind e with
   | KValue | KType | KIterRem => Some true
+  | KIterAdd => if addA then Some true else None
   | KSetAdd | KSetRem => Some false
   | _ => None
   end.
@@ -171,11 +177,11 @@ Proof.
   - destruct (diff_str udiff true s s0) as [ch d]. destruct ch; [apply report_atmost1|left; reflexivity].
 Qed.
 
-Lemma added_from_Free ys j p : Free (added_from skip ys j p p).
+Lemma added_from_Free ys j p : addA = false -> Free (added_from skip ys j p p).
 Proof.
-  revert j; induction ys as [|y ys IH]; intros j e He; cbn in He; [destruct He|].
+  intros HA. revert j; induction ys as [|y ys IH]; intros j e He; cbn in He; [destruct He|].
   apply in_app_or in He as [He|He]; [|eapply IH; exact He].
-  apply report_kind in He as [K _]. unfold cls. rewrite K. reflexivity.
+  apply report_kind in He as [K _]. unfold cls. rewrite K, HA. reflexivity.
 Qed.
 
 (* entries located at p ++ [PIdx i'] ++ rest with i' >= i *)
